@@ -1448,9 +1448,21 @@ fn corpus_c24() -> Vec<Vec<String>> {
     w.extend([0x02, 0x04, 0x00, 0x08, 8, 8, 8, 8]);
     w.extend(vec![7u8; 20]);
     cases.push(w);
-    // v4: one field of exactly 28 bytes and nothing after it is a MAC to the decoder
+    // v4 cut-off corners (Mac::MAXIMUM_SIZE = 24): a last field of exactly 28 bytes is read as a field (28 > 24);
+    // 24 trailing bytes are a MAC to the decoder even when they are framed like a field, alone or after a field
     let mut w = hdr(0x23);
     w.extend(raw_field(T_UID, 28, &[5u8; 24], true));
+    cases.push(w);
+    let mut w = hdr(0x23);
+    w.extend(raw_field(T_UID, 24, &[5u8; 20], true));
+    cases.push(w);
+    let mut w = hdr(0x23);
+    w.extend(raw_field(T_UID, 16, &[6u8; 12], true));
+    w.extend(raw_field(T_COOKIE, 24, &[5u8; 20], true));
+    cases.push(w);
+    let mut w = hdr(0x23);
+    w.extend(raw_field(T_UID, 28, &[5u8; 24], true));
+    w.extend(vec![7u8; 24]);
     cases.push(w);
     let mut w = hdr(0x23);
     w.extend(raw_field(T_UID, 32, &[5u8; 28], true));
